@@ -333,6 +333,7 @@ func runC14(p *eng.Prog, r *eng.Report, tier string) {
 	c := &cx{p, r, tier}
 	c14Stanza(c)
 	stanzaIsTable(c, "C14.9")
+	decodedStanzaNotRewritten(c, "C14.10", []string{"mux.(*ServeMux).iqRouter", "mux.(*ServeMux).msgRouter", "mux.(*ServeMux).presenceRouter"}, 3)
 	c14Handler(c)
 	c14Routers(c)
 	c14Options(c)
